@@ -639,6 +639,8 @@ int main(int argc, char *argv[]) {
     }
   }
 
+  int status = 0;
+
   // Now output the table.
   if (!output_code_filename.empty()) {
     std::string output_buffer_str;
@@ -657,6 +659,7 @@ int main(int argc, char *argv[]) {
     if (!output_code_filename.open_write(output_code)) {
       VERIF_EVENT("{\"e\":\"OpenOutput\",\"ch\":\"oc\",\"ok\":0}");
       nout << "Unable to write to " << output_code_filename << "\n";
+      status = 1;
     } else {
       VERIF_EVENT("{\"e\":\"OpenOutput\",\"ch\":\"oc\",\"ok\":1}");
       output_code << output_buffer_str;
@@ -679,6 +682,14 @@ int main(int argc, char *argv[]) {
       if (build_python_native_wrappers) {
         write_python_table_native(output_code);
       }
+
+      // Flush and close explicitly, so that a failed write is not lost in
+      // the destructor.
+      output_code.close();
+      if (output_code.fail()) {
+        nout << "Error writing to " << output_code_filename << "\n";
+        status = 1;
+      }
     }
     VERIF_EVENT("{\"e\":\"WriterDone\",\"ch\":\"oc\",\"fail\":" << (output_code.fail() ? 1 : 0) << "}");
   }
@@ -690,6 +701,6 @@ int main(int argc, char *argv[]) {
     exit(1);
   }
 
-  VERIF_EVENT("{\"e\":\"Exit\",\"tool\":\"interrogate_module\",\"status\":0}");
-  return (0);
+  VERIF_EVENT("{\"e\":\"Exit\",\"tool\":\"interrogate_module\",\"status\":" << status << "}");
+  return status;
 }
